@@ -9,7 +9,7 @@ open Usual.C09
 structure Block where
   ptr : Nat
   len : Nat
-deriving DecidableEq, Repr
+deriving DecidableEq, Repr, Inhabited
 
 /-- a segment is well formed: header, then the window `start ≤ pos ≤ stop`, all inside the
     parent region; the window starts aligned (or is empty because the area was too small) -/
